@@ -135,6 +135,31 @@
 (*              writer accepts more) CountExact violated, only for writers *)
 (*              that HAVE the interface.                                   *)
 (*                                                                         *)
+(* Faults by VALUE and the Flusher capability (round 8).                    *)
+(*   w.errk     the class of the error values the writer returns (ErrKinds:*)
+(*              "plain" an opaque error; "eintr" syscall.EINTR, bare or    *)
+(*              wrapped in *os.PathError; further classes in the harness:  *)
+(*              EAGAIN, io.ErrShortWrite, timeouts, context errors, EOF -  *)
+(*              the values code commonly special-cases).  The contract     *)
+(*              does not depend on the class: WHATEVER the writer returned *)
+(*              first is reported and ends the writing.  Deviation         *)
+(*              RetryKinds # {}: the wrapper re-issues a Write that failed *)
+(*              with such a value, whole buffer, up to MaxRetry times:     *)
+(*              NoWriteAfterFailure, FirstError, PrefixDelivered (bytes    *)
+(*              twice) and CountExact are violated - only for writers that *)
+(*              return that class.  Writer mode "once" is the transient    *)
+(*              failure such code has in mind (see Resp).                  *)
+(*   w.flush    "none": the writer has no Flush method; else it has        *)
+(*              Flush() error and w.flush says what it returns             *)
+(*              (FlushResult): "nil" / "sticky" / "fails".  Flush is a     *)
+(*              method of the writer like the others: a call of it is a    *)
+(*              call (obs.calls, NoWriteAfterFailure).  Deviation          *)
+(*              FlushAtEnd: WriteTo ends with Flush() and returns its      *)
+(*              result: FirstError violated for "nil" (the latched error   *)
+(*              is lost) and NoWriteAfterFailure for every flusher that    *)
+(*              failed; invisible for writers without Flush and, as far as *)
+(*              FirstError goes, for sticky flushers.                      *)
+(*                                                                         *)
 (* Actions: ChooseWriter (enumeration staged in Next), Unit(sz, kind) --   *)
 (* one per print, Return, NextCall.  Chunk sequences are enumerated on the fly: every *)
 (* sequence of <= MaxChunks sizes 0..MaxSize is a path; with Given # <<>>  *)
@@ -194,7 +219,11 @@ CONSTANTS MaxChunks, UnitSizes,   \* enumeration bounds: prints per call, set of
           LaterModes,             \* writer modes of the calls after the first (a subset of Modes)
           FreshPerCall,           \* TRUE: as written: every WriteTo allocates its own fmtWriter
           ShareChoices,           \* subset of BOOLEAN: TRUE: the next call of a history may go to the SAME writer
-          PerWriterWrapper        \* FALSE as written; TRUE: the wrapper (count, latch) is kept per destination writer
+          PerWriterWrapper,       \* FALSE as written; TRUE: the wrapper (count, latch) is kept per destination writer
+          FlushKinds,             \* behaviours of the writer's Flush method: subset of {"none", "nil", "sticky", "fails"} (header)
+          ErrKinds,               \* classes of error VALUES the writers return (e.g. {"plain", "eintr"}; header)
+          FlushAtEnd,             \* FALSE as written; TRUE: WriteTo ends with Flush() of a writer that has it and returns ITS result
+          RetryKinds, MaxRetry    \* {} as written; error classes on which the wrapper re-issues the Write (at most MaxRetry times)
 
 \* <<>> (chunk sequences are enumerated) or the sequence of given chunk sequences.  A definition,
 \* not a constant substituted in the cfg: TLC evaluates it once (a cfg substitution
@@ -251,11 +280,19 @@ RechunkClosed(mode, sticky, p, cap, failed, rest) ==
           ELSE [acc |-> cap, fail |-> TRUE, cap |-> 0, failed |-> TRUE, writes |-> cap \div p + 1]
 
 \* response of writer wr to Write(buf) with Len(buf) = sz : [acc, fail, cap, failed, writes]
-Resp(wr, sz) ==
+RespBase(wr, sz) ==
   IF wr.piece = 0
   THEN LET r == SinkWrite(wr.mode, wr.sticky, wr.cap, wr.failed, sz)
        IN [acc |-> r.acc, fail |-> r.fail, cap |-> r.cap, failed |-> r.failed, writes |-> 1]
   ELSE RechunkClosed(wr.mode, wr.sticky, wr.piece, wr.cap, wr.failed, sz)
+\* mode "once": a TRANSIENT failure (an interrupted system call, a timeout, a full pipe that drains): the
+\* Write that crosses the capacity is cut there and reports the error (as "prefix"); every later Write
+\* succeeds.  The contract is the same - WriteTo stops at the first error - but a wrapper that carries on
+\* or retries now DELIVERS what it sends after the failure.
+Resp(wr, sz) ==
+  IF wr.mode # "once" THEN RespBase(wr, sz)
+  ELSE IF wr.failed THEN [RespBase([wr EXCEPT !.mode = "never"], sz) EXCEPT !.failed = TRUE]
+  ELSE RespBase([wr EXCEPT !.mode = "prefix", !.sticky = FALSE], sz)
 
 ----------------------------------------------------------------------------
 (* fmtWriter: pure step functions, shared with WriterTrace.tla *)
@@ -268,6 +305,15 @@ ObsInit == [calls |-> 0, failedAt |-> 0, accepted |-> 0, sinkWrites |-> 0, offer
 IfaceMethod(i) == CASE i = "StringWriter" -> "WriteString" [] i = "ByteWriter" -> "WriteByte" [] i = "ReaderFrom" -> "ReadFrom"
 AllIfaces == {"StringWriter", "ByteWriter", "ReaderFrom"}
 MethodsOf(ifs) == {"Write"} \cup {IfaceMethod(i) : i \in ifs}
+\* ... of a writer record: a writer whose flush is not "none" also has Flush() error
+MethodsOfW(wr) == MethodsOf(wr.ifs) \cup (IF wr.flush = "none" THEN {} ELSE {"Flush"})
+\* The result of Flush() after the calls observed in o, as the index of the call whose error value it is
+\* (0 = nil): "nil" a no-op Flush (an adapter, text/tabwriter, a rotating log file); "sticky" repeats the
+\* value of the first failed call (bufio.Writer, gzip.Writer); "fails" returns an error value of its own.
+FlushResult(wr, o) == CASE wr.flush = "nil" -> 0
+                        [] wr.flush = "sticky" -> o.failedAt
+                        [] wr.flush = "fails" -> o.calls + 1
+                        [] OTHER -> 0
 
 \* the early return
 FwSkips(f) == LatchError /\ f.err # 0
@@ -322,6 +368,9 @@ FailsAtCapacityP(s, wr) ==
   \* "edge": the print that reaches the capacity fails, with everything up to the capacity delivered
   /\ (wr.mode = "edge" /\ wr.cap0 > s.slen /\ ~stuck) => s.failedAt = 0
   /\ (wr.mode = "edge" /\ wr.cap0 <= s.slen /\ s.slen > 0 /\ ~stuck) => s.failedAt # 0 /\ s.dlen = wr.cap0
+  \* "once": fails exactly when the module does not fit, unless its one failure already happened
+  /\ (wr.mode = "once" /\ (wr.failed0 \/ wr.cap0 >= s.slen)) => s.failedAt = 0
+  /\ (wr.mode = "once" /\ ~wr.failed0 /\ wr.cap0 < s.slen) => s.failedAt # 0 /\ s.dlen = wr.cap0
 
 ----------------------------------------------------------------------------
 (* Routes: how one print reaches the writer *)
@@ -348,13 +397,18 @@ Redirected(via) == via = "Write" \/ ~CachedViews
 \* The calls cs[j..] of one print, performed on st = [w, fw, obs, dl]; base = position in String()
 \* before the first byte of call j; run = bytes of this print accepted so far (the running total of
 \* the piece loop).  The loop ends at the first failing call.
-RECURSIVE DoCalls(_, _, _, _, _)
-DoCalls(st, cs, j, base, run) ==
+RECURSIVE DoCallsT(_, _, _, _, _, _)
+DoCalls(st, cs, j, base, run) == DoCallsT(st, cs, j, base, run, 0)
+\* tries: how often call j was already re-issued (deviation RetryKinds: while the error is of a class in
+\* RetryKinds the wrapper calls the writer again WITH THE WHOLE BUFFER and keeps only the outcome of the
+\* last attempt: the error of the first attempt is not reported, the writer is called after its failure
+\* and the bytes the failed attempt had accepted are delivered twice)
+DoCallsT(st, cs, j, base, run, tries) ==
   IF j > Len(cs) THEN st
   ELSE LET c == cs[j]
            swapped == LatchBy = "redirect" /\ st.fw.err # 0
        IN IF swapped /\ Redirected(c.via)
-          THEN DoCalls(st, cs, j + 1, base + c.sz, run)               \* io.Discard took it: (len, nil)
+          THEN DoCallsT(st, cs, j + 1, base + c.sz, run, 0)           \* io.Discard took it: (len, nil)
           ELSE LET r   == Resp(st.w, c.sz)
                    add == IF PieceCount = "running" THEN run + r.acc ELSE r.acc
                    nst == [w   |-> [st.w EXCEPT !.cap = r.cap, !.failed = r.failed],
@@ -362,7 +416,9 @@ DoCalls(st, cs, j, base, run) ==
                            fw  |-> IF swapped THEN st.fw ELSE FwStepN(st.fw, st.obs.calls + 1, c.sz, add, r.fail),
                            obs |-> ObsStepM(st.obs, c.via, c.sz, r.acc, r.fail, r.writes),
                            dl  |-> AddInterval(st.dl, base + 1, base + r.acc)]
-               IN IF r.fail THEN nst ELSE DoCalls(nst, cs, j + 1, base + c.sz, run + r.acc)
+               IN IF r.fail /\ st.w.errk \in RetryKinds /\ tries < MaxRetry
+                  THEN DoCallsT([nst EXCEPT !.fw = st.fw], cs, j, base, run, tries + 1)   \* once more, from the start of the buffer
+                  ELSE IF r.fail THEN nst ELSE DoCallsT(nst, cs, j + 1, base + c.sz, run + r.acc, 0)
 
 ----------------------------------------------------------------------------
 (* The state machine *)
@@ -381,7 +437,7 @@ Sources == IF Enumerating THEN {0} ELSE 1..Len(Given)
 Caps(src) == IF Enumerating \/ Given[src].all = 1 THEN 0..MaxTotal(src)
              ELSE {Given[src].k[i] : i \in DOMAIN Given[src].k}
 PiecesOf(src) == IF Enumerating THEN Pieces ELSE {Given[src].p[i] : i \in DOMAIN Given[src].p}
-NoWriter == [mode |-> "none", sticky |-> FALSE, piece |-> 0, cap |-> 0, cap0 |-> 0, failed |-> FALSE, failed0 |-> FALSE, src |-> 0, ifs |-> {}]
+NoWriter == [mode |-> "none", sticky |-> FALSE, piece |-> 0, cap |-> 0, cap0 |-> 0, failed |-> FALSE, failed0 |-> FALSE, src |-> 0, ifs |-> {}, flush |-> "none", errk |-> "plain"]
 
 Init == /\ stage = "cfg" /\ w = NoWriter /\ chunks = <<>> /\ kinds = <<>>
         /\ fw = FwInit /\ obs = ObsInit /\ delivered = <<>>
@@ -390,13 +446,16 @@ Init == /\ stage = "cfg" /\ w = NoWriter /\ chunks = <<>> /\ kinds = <<>>
 \* enumeration of the writer behaviours, one step (not in Init: all workers share it)
 ChooseWriter ==
   /\ stage = "cfg"
-  /\ \E src \in Sources, m \in (IF sess.call = 1 THEN Modes ELSE LaterModes), st \in BOOLEAN, ifs \in IfaceSets :
+  /\ \E src \in Sources, m \in (IF sess.call = 1 THEN Modes ELSE LaterModes), st \in BOOLEAN, ifs \in IfaceSets, fl \in FlushKinds, ek \in ErrKinds :
      \E p \in PiecesOf(src), c \in Caps(src) \cup {0} :
        /\ (m = "never" => ~st /\ c = 0)          \* no capacity, nothing to stick to
        /\ (m # "never" => c \in Caps(src))
        /\ (m = "silent" => ~st /\ p = 0)
        /\ (m = "edge" => ~st)                    \* capacity 0 after its failure: sticky by construction
-       /\ w' = [mode |-> m, sticky |-> st, piece |-> p, cap |-> c, cap0 |-> c, failed |-> FALSE, failed0 |-> FALSE, src |-> src, ifs |-> ifs]
+       /\ (m = "once" => ~st)                    \* transient by definition
+       /\ (m \in {"never", "silent"} => ek = CHOOSE e \in ErrKinds : TRUE)     \* returns no error: no class to vary
+       /\ w' = [mode |-> m, sticky |-> st, piece |-> p, cap |-> c, cap0 |-> c, failed |-> FALSE, failed0 |-> FALSE, src |-> src, ifs |-> ifs,
+                flush |-> fl, errk |-> ek]
   /\ stage' = "run"
   /\ UNCHANGED <<chunks, kinds, fw, obs, delivered, sess>>
 
@@ -422,7 +481,13 @@ Return ==
   /\ stage = "run"
   /\ (~Enumerating => Len(chunks) = Len(GivenSeq(w.src)))
   /\ stage' = "done"
-  /\ UNCHANGED <<w, chunks, kinds, fw, obs, delivered, sess>>
+  /\ IF FlushAtEnd /\ w.flush # "none"
+     THEN \* deviation: f.Flush() is one more call of the writer and ITS result replaces the latched error
+          LET e == FlushResult(w, obs) IN
+          /\ fw' = [fw EXCEPT !.err = e]
+          /\ obs' = [ObsStepM(obs, "Flush", 0, 0, e # 0, 0) EXCEPT !.failedAt = IF obs.failedAt = 0 /\ e # 0 THEN e ELSE obs.failedAt]
+     ELSE UNCHANGED <<fw, obs>>
+  /\ UNCHANGED <<w, chunks, kinds, delivered, sess>>
 
 \* The next WriteTo of the history: another writer, the same or another module (chunk sequence).
 \* As written every call does fw := &fmtWriter{w: w}.  FreshPerCall = FALSE is a pooled fmtWriter
@@ -467,9 +532,10 @@ TypeOK == /\ stage \in {"cfg", "run", "done"}
           /\ sess.call \in 1..MaxCalls
           /\ obs.failedAt <= obs.calls
           /\ Len(kinds) = Len(chunks)
-          /\ (Route = "fmt" => obs.calls <= Len(chunks) /\ obs.pieces <= 1)
-          /\ obs.methods \subseteq MethodsOf(w.ifs)        \* only methods the writer has (Go's type system)
-          /\ (Route = "fmt" => obs.methods \subseteq {"Write"})
+          /\ (Route = "fmt" /\ RetryKinds = {} /\ ~FlushAtEnd => obs.calls <= Len(chunks) /\ obs.pieces <= 1)
+          /\ obs.methods \subseteq MethodsOfW(w)           \* only methods the writer has (Go's type system)
+          /\ (Route = "fmt" => obs.methods \subseteq {"Write", "Flush"})
+          /\ (~FlushAtEnd => "Flush" \notin obs.methods)   \* as written WriteTo never flushes the caller's writer
 
 \* invariants at every step (the count is exact all along, not only at the end).  obs counts the calls
 \* of EVERY method, so each law speaks about Write, WriteString, WriteByte and ReadFrom alike.
@@ -504,6 +570,9 @@ NoSharedRecovery   == ~(Done /\ sess.shared /\ w.failed0 /\ ~w.sticky /\ obs.fai
 NoSharedStuck      == ~(Done /\ sess.shared /\ w.failed0 /\ w.sticky /\ obs.failedAt = 1 /\ w.cap > 0)
 NoThirdSharedCall  == ~(Done /\ sess.shared /\ sess.call = 3 /\ obs.failedAt # 0 /\ obs.accepted > 0)
 NoFullCountError   == ~(Done /\ obs.failedAt # 0 /\ obs.accepted = obs.offered /\ Total > 0)
+\* ... of WriterFaults.cfg: a transient failure in the middle of a print; a writer with a no-op Flush that failed
+NoTransientFailure == ~(Done /\ w.mode = "once" /\ obs.failedAt # 0 /\ obs.accepted > 0 /\ obs.accepted < Total)
+NoFailedFlusher    == ~(Done /\ w.flush = "nil" /\ obs.failedAt # 0)
 \* ... on the direct route (WriterDirect.cfg): a print goes out in three pieces; a failure in a piece
 \* after the first; every optional method is used
 NoThreePieces      == ~(Done /\ obs.pieces >= 3)
